@@ -1,5 +1,6 @@
 //! vdrive <family> --tier quick|thorough --seed N --part K/N --out FILE [--scale S]
 use vharness::drivers::*;
+use vharness::drivers2::*;
 use vharness::proj::*;
 
 fn main() {
@@ -52,6 +53,8 @@ fn main() {
         "remove" => drive_remove(&mut cx),
         "repair" => drive_repair(&mut cx),
         "caches" => drive_caches(&mut cx, &hist, dim),
+        "queries" => drive_queries(&mut cx),
+        "serde" => drive_serde(&mut cx),
         _ => { eprintln!("unknown family {fam}"); std::process::exit(2); }
     }
     cx.tr.flush();
